@@ -37,19 +37,18 @@
   Scope (what is a step of the machine, `Ark.RelRefine.guard`).  Handles are opaque and component
   IDs are obtained by registration: an operation on a handle no `new` returned, a target that is
   neither the zero entity nor such a handle, or adding an unregistered component ID, is not a
-  step.  In addition the relation arguments must be well-formed (`RelsWF`: no relation component
-  named twice, each names a relation component among `ids`, every relation component among `ids`
-  is named; for `setrel`: no component twice), and for `new` / `add` through `Unsafe` the targets
-  must be valid.  These restrictions are forced by FINDINGS (§ 7): the model accepts a relation
-  component named twice and breaks its own invariants — in `NewEntity` / `Add` (finding 1 of
-  `Props/C04World.lean`) and in `SetRelations` (§ 7 (e): the entity is "moved" into its own table,
-  its index entry is left dangling and a value is lost); and it creates the archetype before it
-  notices a missing relation, a non-relation component, or — through `Unsafe` — a dead target, so
-  that such a call is refused but NOT without effect.
-  Everything else is a step: dead handles, components present / absent, empty and duplicate
-  lists, a full registry, a relation component the entity lacks, a dead target of `setrel` (any
-  path) or of `new` / `add` through a typed path — the specification leaves its state unchanged
-  and the model panics without effect (`rejected`).
+  step.  In addition the relation arguments of `new` / `add` must be well-formed (`RelsWF`: no
+  relation component named twice, each names a relation component among `ids`, every relation
+  component among `ids` is named), and through `Unsafe` their targets must be valid.  These
+  restrictions are forced by FINDINGS (§ 7): the model creates the archetype before `createTable`
+  notices a relation component named twice (refused with `relTwice` since the repair of defect
+  D18 — finding 1 of `Props/C04World.lean` —, § 7 (f)), a missing relation, a non-relation
+  component, or — through `Unsafe` — a dead target, so that such a call is refused but NOT without
+  effect.  Everything else is a step: dead handles, components present / absent, empty and
+  duplicate lists, a full registry, and for `setrel` (any path) a relation component named twice
+  (refused since the repair of defect D19, § 7 (e)), a relation component the entity lacks, a
+  dead target; a dead target of `new` / `add` through a typed path — the specification leaves its
+  state unchanged and the model panics without effect (`rejected`).
 
   Bound: `ops.length < 2^16`.  `RemoveEntity` of a relation target may create one table per
   relation archetype (`RemovedRelPost.tablesLen`), every operation creates at most one relation
@@ -149,7 +148,8 @@ theorem targets_zero_or_alive_world (ops : List Op) (hlen : ops.length < 2 ^ 16)
 /-- **rejected** — a step of the machine (`guard`) whose precondition (`pre`, a statement about
     the specification only) fails: the model panics with the world unchanged, and the whole
     machine state (world, returned handles, specification) is unchanged.  Includes: a dead
-    target named by `setrel` (any path) or by `new` / `add` through a typed path. -/
+    target named by `setrel` (any path) or by `new` / `add` through a typed path, and (since the
+    repair of defect D19) a `setrel` naming one relation component twice. -/
 theorem rejected (ops : List Op) (op : Op) (hlen : ops.length + 1 < 2 ^ 16)
     (hg : guard (reach run cap rel ops) op = true) (hnp : ¬ pre (reach run cap rel ops).ss op) :
     (∃ k, exec run (reach run cap rel ops).w op = .panic k (reach run cap rel ops).w) ∧
@@ -593,29 +593,54 @@ example :
       summary (reach noProbe 2 2 demoOps).w := by
   decide +kernel
 
-/-- (e) **`SetRelations` naming one relation component twice** (`setrel` asks for distinct
-    components): child `6.0` has the target `3.0`; `SetRelations(6.0, ChildOf ↦ 2.1, ChildOf ↦ 3.0)`
-    — both targets alive — sets the `changed` flag at the first relation and arrives at the old
-    targets with the second, so `GetTable` returns the entity's OWN table: the entity is added to
-    it and its old row removed.  The call is accepted on every path; afterwards the index entry of
-    `6.0` points at row 1 of a table with one row, and its `Pos` reads 0 instead of 9 — C01 and
-    the index invariant are broken.  (`getExchangeTargets` of `storage.go` has the same logic.) -/
+/-- (e) **defect D19, repaired: `SetRelations` naming one relation component twice.**  Child `6.0`
+    has the target `3.0`; `SetRelations(6.0, ChildOf ↦ 2.1, ChildOf ↦ 3.0)` — both targets alive.
+    Before the repair `getExchangeTargets` set its `changed` flag at the first relation and arrived
+    at the old targets with the second, `GetTable` returned the entity's OWN table, the entity was
+    added to it and its old row removed: the call was accepted on every path, the index entry of
+    `6.0` was left pointing at row 1 of a one-row table and its `Pos` read 0 instead of 9.  Now
+    `getExchangeTargets` keeps the components seen and refuses the second `ChildOf` with
+    "relation component … specified more than once" (`relTwice`) before it looks at the column:
+    the call is a step of the machine (`guard`), its precondition fails (`SetRelOK` asks for
+    distinct components), and it is rejected without effect on every path (`rejected`,
+    `setRelationsCore_not_nodup`) -/
 example :
-    guard (reach noProbe 2 2 demoOps) (.setrel .typed ⟨6, 0⟩ [⟨0, p3⟩, ⟨0, p2⟩]) = false ∧
+    guard (reach noProbe 2 2 demoOps) (.setrel .typed ⟨6, 0⟩ [⟨0, p3⟩, ⟨0, p2⟩]) = true ∧
+    guard (reach noProbe 2 2 demoOps) (.setrel .unsafe_ ⟨6, 0⟩ [⟨0, p3⟩, ⟨0, p2⟩]) = true ∧
+    ¬ SetRelOK (reach noProbe 2 2 demoOps).ss ⟨[(0, 0), (1, 9)], [⟨0, p2⟩]⟩ [⟨0, p3⟩, ⟨0, p2⟩] ∧
     (reach noProbe 2 2 demoOps).w.alive p3 = true ∧ (reach noProbe 2 2 demoOps).w.alive p2 = true ∧
     panicOf (opSetRelations noProbe .typed ⟨6, 0⟩ [0] [⟨0, p3⟩, ⟨0, p2⟩]
-      (reach noProbe 2 2 demoOps).w) = none ∧
+      (reach noProbe 2 2 demoOps).w) = some .relTwice ∧
     panicOf (opSetRelations noProbe .unsafe_ ⟨6, 0⟩ [0] [⟨0, p3⟩, ⟨0, p2⟩]
-      (reach noProbe 2 2 demoOps).w) = none ∧
-    (valOf (reach noProbe 2 2 demoOps).w 6 1,
-      (reach noProbe 2 2 demoOps).w.entities.getD 6 (0, 0),
-      ((reach noProbe 2 2 demoOps).w.tbl 2).len) = (some 9, (2, 0), 1) ∧
+      (reach noProbe 2 2 demoOps).w) = some .relTwice ∧
+    (step noProbe (reach noProbe 2 2 demoOps) (.setrel .typed ⟨6, 0⟩ [⟨0, p3⟩, ⟨0, p2⟩])).ss.ents =
+      (reach noProbe 2 2 demoOps).ss.ents ∧
+    summary (opSetRelations noProbe .typed ⟨6, 0⟩ [0] [⟨0, p3⟩, ⟨0, p2⟩]
+      (reach noProbe 2 2 demoOps).w).state = summary (reach noProbe 2 2 demoOps).w ∧
     (valOf (opSetRelations noProbe .typed ⟨6, 0⟩ [0] [⟨0, p3⟩, ⟨0, p2⟩]
         (reach noProbe 2 2 demoOps).w).state 6 1,
+      targetOf (opSetRelations noProbe .typed ⟨6, 0⟩ [0] [⟨0, p3⟩, ⟨0, p2⟩]
+        (reach noProbe 2 2 demoOps).w).state 6 0,
       (opSetRelations noProbe .typed ⟨6, 0⟩ [0] [⟨0, p3⟩, ⟨0, p2⟩]
         (reach noProbe 2 2 demoOps).w).state.entities.getD 6 (0, 0),
       ((opSetRelations noProbe .typed ⟨6, 0⟩ [0] [⟨0, p3⟩, ⟨0, p2⟩]
-        (reach noProbe 2 2 demoOps).w).state.tbl 2).len) = (some 0, (2, 1), 1) := by
+        (reach noProbe 2 2 demoOps).w).state.tbl 2).len) = (some 9, some p2, (2, 0), 1) := by
+  decide +kernel
+
+/-- (f) **defect D18, repaired: `NewEntity` / `Add` naming one relation component twice** are
+    refused with `relTwice` by `createTable` (before the repair they were accepted, finding 1 of
+    `Props/C04World.lean`) — but `createTable` runs after `findOrCreateArch`, so when the archetype
+    is new the refusal is not without effect (one more archetype), on every path: such calls stay
+    outside the machine (`RelsWF` in `guard`) -/
+example :
+    guard (reach noProbe 2 2 demoOps) (.new .typed [0] [] [⟨0, p3⟩, ⟨0, p2⟩]) = false ∧
+    panicOf (opNewEntity noProbe .typed [0] [] [⟨0, p3⟩, ⟨0, p2⟩] (reach noProbe 2 2 demoOps).w) =
+      some .relTwice ∧
+    panicOf (opNewEntity noProbe .unsafe_ [0, 1] [] [⟨0, p3⟩, ⟨0, p2⟩]
+      (reach noProbe 2 2 demoOps).w) = some .relTwice ∧
+    ((reach noProbe 2 2 demoOps).w.archetypes.length,
+      (opNewEntity noProbe .typed [0] [] [⟨0, p3⟩, ⟨0, p2⟩]
+        (reach noProbe 2 2 demoOps).w).state.archetypes.length) = (2, 3) := by
   decide +kernel
 
 end Ark.Props.C04Hist
